@@ -1,3 +1,16 @@
+/-
+  C14 — Chunk concatenation is total, deterministic and independent of chunk boundaries.
+  Property theorems.  Model: EinoV/Model/C14.lean.  Lemmas: EinoV/Proofs/C14.lean.
+  Source facts: EinoV/Gen/FactsC14.lean (regenerated from /repo on every run).
+
+  `srcCfg` is the model configuration built from the regenerated facts: the `concatFuncs`
+  table of internal/concat.go, whether `concatMaps` guards nil interface values, and the
+  presence of the conflict checks in `ConcatMessages` / `concatToolCalls`.  Every theorem is
+  about the model instantiated with `srcCfg`; `EqvE a b` = "equal results, or both errors".
+  The fuel `n` bounds the nesting depth of `map[string]any` values (`Err.fuel` is the
+  model's artefact for deeper nesting; `*_total` shows it is unreachable for `n` above the
+  nesting depth, and the laws hold for every `n`).
+-/
 import EinoV.Model.C14
 import EinoV.Proofs.C14
 import EinoV.Gen.FactsC14
@@ -6,6 +19,17 @@ import EinoV.Expected.C14
 namespace EinoV.C14
 open EinoV.Gen
 
+/-- the model configuration read off the source tree -/
+def srcCfg : Cfg :=
+  Expected.C14.mkCfg FactsC14.concatFuncs FactsC14.nilGuard FactsC14.roleCheck FactsC14.nameCheck
+    FactsC14.tcidCheck FactsC14.tcIdCheck FactsC14.tcTypeCheck FactsC14.tcNameCheck
+
+/-! ## source-fact tie -/
+
+/-- The regenerated facts are the ones the oracle runs with: the `concatFuncs` table
+    (string ↦ concatStrings, the numeric/bool/time types ↦ useLast, nothing else), the two
+    functions registered by schema's `init`, the nil guard of `concatMaps`, and all six
+    conflict checks. -/
 theorem facts_match :
     FactsC14.concatFuncs = Expected.C14.concatFuncs ∧
     FactsC14.registered = Expected.C14.registered ∧
@@ -13,5 +37,146 @@ theorem facts_match :
     FactsC14.roleCheck = true ∧ FactsC14.nameCheck = true ∧ FactsC14.tcidCheck = true ∧
     FactsC14.tcIdCheck = true ∧ FactsC14.tcTypeCheck = true ∧ FactsC14.tcNameCheck = true := by
   decide
+
+theorem srcCfg_eq_expected : srcCfg.table = Expected.C14.cfg.table ∧ srcCfg.nilAbsent = true := by
+  decide
+
+/-! ## totality: a value or an ordinary error, never a panic -/
+
+/-- **concat_total (ConcatMessages).** For every chunk sequence (nil chunks, absent / zero
+    fields, nested extras with nil values and type clashes included) `ConcatMessages` returns
+    a message or an ordinary error: the modelled panic sites (`reflect.SliceOf(nil)` in
+    `toSliceValue`, `s[len(s)-1]` in `useLast`) are unreachable. -/
+theorem concat_total (n : Nat) (cs : List (Option Msg))
+    (hn : ∀ ms, allSome cs = some ms → extrasDepth ms < n) :
+    (∃ m, concatMsgPtrs srcCfg n cs = .ok m) ∨ concatMsgPtrs srcCfg n cs = .error .fail :=
+  concatMsgPtrs_total srcCfg (by decide) n cs hn
+
+/-- no panic, for every fuel (no side condition at all) -/
+theorem concat_never_panics (n : Nat) (cs : List (Option Msg)) :
+    concatMsgPtrs srcCfg n cs ≠ .error .panic := by
+  unfold concatMsgPtrs
+  cases h : allSome cs with
+  | none => simp
+  | some ms =>
+    intro he
+    rcases concatMsgs_err srcCfg n ms _ he with h1 | h2
+    · cases h1
+    · exact concatEvs_no_panic srcCfg (by decide) n _ h2
+
+/-- **concat_total (map[string]any chunks through the stream→value conversion).** -/
+theorem concat_total_maps (n : Nat) (ms : List KVs) (hn : depthKVs ms.flatten < n) :
+    (∃ m, concatMapChunks srcCfg n ms = .ok m) ∨ concatMapChunks srcCfg n ms = .error .fail := by
+  cases ms with
+  | nil => exact Or.inr rfl
+  | cons a t =>
+    cases t with
+    | nil => exact Or.inl ⟨a, rfl⟩
+    | cons b t' => exact concatMaps_total srcCfg (by decide) n _ hn
+
+/-- **concat_total (string chunks).** -/
+theorem concat_total_strs (xs : List String) :
+    (∃ s, concatStrChunks srcCfg xs = .ok s) ∨ concatStrChunks srcCfg xs = .error .fail :=
+  concatStream_total _ (fun xs h => strCore_total srcCfg xs h) xs
+
+/-! ## re-chunking invariance (the monoid-with-errors law) -/
+
+/-- **concat_rechunk (messages).** Concatenating any prefix first and then the rest gives
+    the same message as concatenating everything at once, or both fail. -/
+theorem concat_rechunk (n : Nat) (xs ys : List (Option Msg)) :
+    EqvE (concatMsgPtrs srcCfg n xs >>= fun r => concatMsgPtrs srcCfg n (some r :: ys))
+         (concatMsgPtrs srcCfg n (xs ++ ys)) :=
+  concatMsgPtrs_rechunk srcCfg n xs ys
+
+/-- **concat_rechunk (tool calls)**, as an equality. -/
+theorem concat_rechunk_toolcalls (xs ys : List TC) :
+    (concatTC srcCfg xs >>= fun r => concatTC srcCfg (r ++ ys)) = concatTC srcCfg (xs ++ ys) :=
+  concatTC_rechunk srcCfg xs ys
+
+/-- **concat_rechunk (maps, `concatMaps`)**: nested maps, per-key rules from the table,
+    nil values, type clashes. -/
+theorem concat_rechunk_maps (n : Nat) (xs ys : List KVs) :
+    EqvE (concatMaps srcCfg n xs >>= fun r => concatMaps srcCfg n (r :: ys)) (concatMaps srcCfg n (xs ++ ys)) :=
+  concatMaps_rechunk srcCfg n xs ys
+
+/-- **concat_rechunk through `concatStreamReader`** (empty stream = error, one chunk = that
+    chunk untouched, otherwise `ConcatItems`) for string, map and message chunks. -/
+theorem concat_rechunk_stream_strs (xs ys : List String) (h : xs ≠ []) :
+    EqvE (concatStrChunks srcCfg xs >>= fun r => concatStrChunks srcCfg (r :: ys)) (concatStrChunks srcCfg (xs ++ ys)) :=
+  concatStrChunks_rechunk srcCfg xs ys h
+
+theorem concat_rechunk_stream_maps (n : Nat) (xs ys : List KVs) (h : xs ≠ []) :
+    EqvE (concatMapChunks srcCfg n xs >>= fun r => concatMapChunks srcCfg n (r :: ys)) (concatMapChunks srcCfg n (xs ++ ys)) :=
+  concatMapChunks_rechunk srcCfg n xs ys h
+
+theorem concat_rechunk_stream_msgs (n : Nat) (xs ys : List (Option Msg)) (h : xs ≠ []) :
+    EqvE (concatMsgChunks srcCfg n xs >>= fun r => concatMsgChunks srcCfg n (r :: ys)) (concatMsgChunks srcCfg n (xs ++ ys)) :=
+  concatMsgChunks_rechunk srcCfg n xs ys h
+
+/-! ## arrival order and grouping by index -/
+
+/-- **args_in_order (text).** The content of the result is the contents of the chunks in
+    arrival order. -/
+theorem args_in_order_content (n : Nat) (ms : List Msg) (m : Msg) (h : concatMsgs srcCfg n ms = .ok m) :
+    m.content = joinS (ms.map (·.content)) :=
+  (concatMsgs_ok_fields srcCfg n ms m h).2.2.2.1
+
+/-- **toolcalls_by_index + args_in_order (tool calls).** In a successful result the tool
+    calls are: the nil-index fragments, untouched, in arrival order; then exactly one call
+    per index that occurs, in strictly ascending index order, whose arguments are the
+    arguments of the fragments with that index in arrival order. -/
+theorem toolcalls_by_index (n : Nat) (ms : List Msg) (m : Msg) (h : concatMsgs srcCfg n ms = .ok m) :
+    let cs := ms.flatMap (·.toolCalls)
+    ∃ gs : List (Int × TC),
+      m.toolCalls = cs.filter (fun c => c.index = none) ++ gs.map (·.2) ∧
+      gs.Pairwise (fun p q => p.1 < q.1) ∧
+      (∀ p ∈ gs, p.2.index = some p.1) ∧
+      (∀ i, (∃ c ∈ cs, c.index = some i) ↔ (∃ p ∈ gs, p.1 = i)) ∧
+      (∀ p ∈ gs, p.2.args = joinS ((cs.filter (fun c => c.index = some p.1)).map (·.args))) :=
+  concatTC_spec srcCfg _ _ (concatMsgs_ok_fields srcCfg n ms m h).2.2.2.2.2.1
+
+/-! ## non-vacuity -/
+
+private def tc (i : Option Int) (id name args : String) : TC :=
+  { index := i, id := id, type := "", name := name, args := args, extra := 0 }
+private def msg (content : String) (tcs : List TC) (extra : KVs) : Msg :=
+  { role := "assistant", name := "", toolCallID := "", content := content, multi := [], toolCalls := tcs,
+    rmeta := none, extra := extra }
+
+/-- a successful, non-trivial concatenation (fragments of two indexed calls arriving
+    interleaved and out of order, a nil-index call, nested extras with a nil value) -/
+example :
+    (match concatMsgPtrs Expected.C14.cfg 3
+        [some (msg "He" [tc (some 1) "b" "g" "{\"y\"", tc none "n" "h" "z"] [("k", .sc "string" "a"), ("m", .map [("x", .nil)])]),
+         some (msg "llo" [tc (some 0) "a" "f" "{\"x\":", tc (some 1) "" "" ":2}"] [("k", .sc "string" "b"), ("m", .map [("x", .sc "int" "7")])]),
+         some (msg "" [tc (some 0) "" "" "1}"] [])] with
+      | .ok m => m.content == "Hello" &&
+                 m.toolCalls.map (fun t => (t.index, t.id, t.name, t.args)) ==
+                   [(none, "n", "h", "z"), (some 0, "a", "f", "{\"x\":1}"), (some 1, "b", "g", "{\"y\":2}")] &&
+                 (match m.extra with
+                  | [("k", .sc "string" "ab"), ("m", .map [("x", .sc "int" "7")])] => true
+                  | _ => false)
+      | .error _ => false) = true := by decide
+
+/-- an ordinary error: conflicting tool-call ids for one index -/
+example : isFail (concatMsgPtrs Expected.C14.cfg 2
+    [some (msg "" [tc (some 0) "a" "" ""] []), some (msg "" [tc (some 0) "b" "" ""] [])]) = true := by decide
+
+/-- an ordinary error: a nil chunk -/
+example : isFail (concatMsgPtrs Expected.C14.cfg 2 [some (msg "x" [] []), none]) = true := by decide
+
+/-! ## the negation for the other value of the nil-guard fact (the defect of the unfixed tree) -/
+
+/-- Without the nil guard in `concatMaps` totality is false: one chunk whose `Extra` maps a
+    key to nil makes `ConcatMessages` panic (`reflect.SliceOf(reflect.TypeOf(nil))`). -/
+theorem nil_extra_panics_without_guard :
+    isPanic (concatMsgPtrs { Expected.C14.cfg with nilAbsent := false } 2
+      [some (msg "" [] [("k", .nil)])]) = true := by decide
+
+/-- … and with the guard the same input concatenates (the key keeps its nil value). -/
+theorem nil_extra_ok_with_guard :
+    (match concatMsgPtrs Expected.C14.cfg 2 [some (msg "" [] [("k", .nil)]), some (msg "" [] [("k", .sc "int" "1")])] with
+      | .ok m => (match m.extra with | [("k", .sc "int" "1")] => true | _ => false)
+      | .error _ => false) = true := by decide
 
 end EinoV.C14
